@@ -40,7 +40,7 @@ COMPONENTS = {'real': tc.TAGGER_REAL + ['write_status'],
               'stub': tc.TAGGER_STUB + ['crash injector: sys.settrace line events on the pipeline code objects, os._exit(137) in the forked child',
                                         'fault plan: proxy objects bound to the names pysam / os / shutil / move inside bamFunctions and bamtagmultiome; write-mode AlignmentFile wrapper',
                                         'SimPool worker exception / worker loss', 'RLIMIT_FSIZE in the forked child (thorough tier)']}
-REQUIRED_PROBES = ['baseline_success', 'kill_after_first_write', 'kill_during_post_processing', 'seam_fault_fired', 'worker_fault_fired', 'stale_success_initial_state', 'status_not_success_after_fault']
+REQUIRED_PROBES = ['input_index_stale', 'baseline_success', 'kill_after_first_write', 'kill_during_post_processing', 'seam_fault_fired', 'worker_fault_fired', 'stale_success_initial_state', 'status_not_success_after_fault']
 EXHAUSTIVE_NOTE = 'per sampled (workload, pipeline, method, initial state): all executed (function,line) sites x 5 occurrence classes, all seams x 4 call-index classes x errors, all jobs x 3 worker faults'
 SLICES = 4
 OCC = ['first', 'second', 'middle', 'last-but-one', 'last']
@@ -93,7 +93,9 @@ def generate(seed, tier, index=None):
         o.update({'n': 1000 + len(frags), 'ctg': ci, 'L': min(o['L'], clen // 3), 'extra': None, 'clip': 0, 'defect': kind_})
         o['site'] = w.randint(o['L'] + 8, clen - o['L'] - 8)
         frags = [f for f in frags if f['ctg'] != ci] + [o]
-    params = {'method': method, 'encoded': w.random() < 0.7, 'lib': 'LIB', 'stale': stale, 'tier': tier, 'no_rejects': no_rejects, 'special_layout': special}
+    params = {'method': method, 'encoded': w.random() < 0.7, 'lib': 'LIB', 'stale': stale, 'tier': tier, 'no_rejects': no_rejects, 'special_layout': special,
+              # the input's index was left over from an earlier version of the file (N simulated seconds older) in two of the eight rotations
+              'index_state': ['stale', w.choice([1, 30, 3600])] if h % 8 in (2, 5) else None}
     mode = {'mp': mp, 'no_rejects': params['no_rejects'], 'isolation': 'fork' if (mp and (h >> 3) % 2) else 'inproc', 'name': 'multi' if mp else 'single', 'width': st.schedule.randint(1, 3), 'schedule': {'policy': 'seeded'}, 'seed': seed}
     return {'params': params, 'genome': genome, 'workload': frags, 'mode': mode}   # 'plans' absent -> enumerated by execute()
 
@@ -209,6 +211,8 @@ def execute(case):
         if case.get('slice') and case.get('plans') is None:     # slicing applies to the enumerated family only
             j, J = case['slice']
             plans = plans[j::J]
+        if p.get('index_state'):
+            probe('input_index_stale')
         stale_dir = None
         if p['stale'] and base['ok']:
             stale_dir = base['dir']
@@ -222,6 +226,8 @@ def execute(case):
             if stale_dir is not None:   # leftovers of a previous successful run of the same input
                 shutil.copytree(stale_dir, sub)
             m = _mode_with(mode, plan, bytes_written)
+            if p.get('index_state'):
+                tc.write_input(d, case)      # every lifetime starts from the same durable input state (the previous one repaired the index)
             try:
                 o = tc.run_mode(d, case, m, tag, in_bam=in_bam)
             finally:
